@@ -4,19 +4,27 @@ import json, os, sys
 V = os.path.dirname(os.path.dirname(os.path.abspath(__file__)))
 sys.path.insert(0, V)
 from analysis import build, canon, combinators
-adts, fns, hashes, combs = {}, {}, {}, {}
+adts, fns, hashes, combs, callees, enums = {}, {}, {}, {}, {}, set()
 for cfg in build.thorough_configs():
     fp, _ = build.build_facts(cfg)
     raw = json.load(open(fp))
     s = canon.shapes_of(raw)
     adts.update(s["adts"]); fns.update(s["fns"])
+    enums.update(p_ for p_, a_ in raw["adts"].items() if a_.get("kind") == "enum")
     for p_, b_ in raw["bodies"].items():
         h = canon.body_hash(b_)
         if h not in hashes.setdefault(p_, []):
             hashes[p_].append(h)
+        base_ = p_.split("::{closure")[0]
+        for blk_ in b_["blocks"]:
+            t_ = blk_["term"]
+            if t_["k"] == "call" and t_["callee"]["path"] in raw["bodies"]:
+                c_ = t_["callee"]["path"].split("::{closure")[0]
+                if c_ != base_ and c_ not in callees.setdefault(base_, []):
+                    callees[base_].append(c_)
         for k_, n_ in combinators.counts(b_, p_).items():
             combs.setdefault(p_, {})[k_] = max(n_, combs.get(p_, {}).get(k_, 0))
 out = os.path.join(V, "rules", "spec", "known_shapes.json")
 head = os.popen("git -C /repo rev-parse --short HEAD").read().strip()
-json.dump({"reference_tree": head, "adts": adts, "fns": fns, "hashes": hashes, "combinators": combs}, open(out, "w"), indent=0)
+json.dump({"reference_tree": head, "adts": adts, "fns": fns, "hashes": hashes, "combinators": combs, "callees": {k_: sorted(v_) for k_, v_ in callees.items()}, "enums": sorted(enums)}, open(out, "w"), indent=0)
 print(len(adts), "structs,", len(fns), "functions ->", out)
